@@ -32,6 +32,13 @@ def obligations():
         Obl("C09.lattice.ortho_1_2_3", "py", H, "lattice_shift_ortho", ["geometry.cpp:dist_mic"], "symbolic integer lattice shift of one atom", "displacement unchanged away from ties", 300, params={"cell": "ortho_1_2_3"}),
         Obl("C09.lattice.cubic", "py", H, "lattice_shift_ortho", ["geometry.cpp:dist_mic"], "cubic cell", "same", 300, params={"cell": "cubic"}),
     ]
+    # lattice translation at the API level: what is reported must be a function of minimum-image separations only
+    enc = ["neighbors.cpp:_compute_neighbors"]
+    for c in ("monoclinic110", "triclinic_b", "cubic"):
+        o.append(Obl(f"C09.lattice.neighbors.{c}", "py", "harness.c10", "check_neighbors", enc, f"cell {c}, cutoff = half the smallest width, symbolic coordinates anywhere",
+                     "the reported set is exactly 'some image within the cutoff' -- a lattice-periodic predicate, hence invariant under per-atom lattice shifts", 600, params={"cell": c, "cutoff_frac": 1.0}))
+    o.append(Obl("C09.lattice.kernel_choice", "xh", "harness.c05_py", "dispatch", ["mdtraj.geometry.distance.compute_distances_core", "compute_displacements", "compute_distances_t"],
+                 "3 frames, each orthorhombic or skewed (symbolic)", "a skewed frame is never sent to the diagonal-only kernel (whose output is not lattice-periodic in a skewed cell)", 300))
     return o
 
 
